@@ -1827,6 +1827,52 @@ fn check_case(c: &mut Case, input: &Input) {
             }
         }
         let _ = std::fs::remove_file(&path);
+        // ---- tiles of one map exported at the same time into one directory (a worker pool): every path holds its tile
+        if c.idx % 4 == 0 {
+            let nthreads = 4usize;
+            let paths: Vec<std::path::PathBuf> = (0..nthreads).map(|t| dir.join(format!("c14-{}-map_{}_{t}.adt", std::process::id(), c.idx % 64))).collect();
+            for round in 0..3 {
+                for p in &paths {
+                    let _ = std::fs::remove_file(p);
+                }
+                let barrier = std::sync::Barrier::new(nthreads);
+                let outcomes: Vec<Result<Result<(), String>, vh_common::PanicInfo>> = std::thread::scope(|sc| {
+                    let hs: Vec<_> = paths
+                        .iter()
+                        .map(|p| {
+                            let (barrier, built) = (&barrier, &built);
+                            sc.spawn(move || {
+                                barrier.wait();
+                                trap(|| built.write_to_file(p).map_err(|e| e.to_string()))
+                            })
+                        })
+                        .collect();
+                    hs.into_iter().map(|h| h.join().unwrap_or_else(|_| Ok(Err("thread died".into())))).collect()
+                });
+                c.count("concurrent_file_writes", nthreads as u64);
+                for (p, o) in paths.iter().zip(outcomes) {
+                    match o {
+                        Err(pn) => c.violate(format!("write-to-file-panic|{}|{ver}", pn.sig()), format!("write_to_file panicked: {}", pn.msg), json!({"prior": "concurrent"})),
+                        Ok(Err(e)) => c.violate(format!("write-to-file-failed|concurrent-same-directory|{ver}"), format!("write_to_file failed while other tiles were written into the same directory (round {round}): {e}"), json!({"prior": "concurrent"})),
+                        Ok(Ok(())) => match std::fs::read(p) {
+                            Ok(d) if d == x0 => c.count("files_equal_to_serialised_tile", 1),
+                            Ok(d) => c.violate("file-ne-serialised-tile|concurrent-same-directory".to_string(), format!("after concurrent writes into one directory a tile file holds {} bytes, the tile serialises to {} (first difference at {})", d.len(), x0.len(), vh_common::first_diff(&d, &x0)), json!({"prior": "concurrent"})),
+                            Err(e) => c.violate(format!("write-to-file-failed|concurrent-same-directory|{ver}"), format!("write_to_file returned Ok and the file cannot be read: {e}"), json!({"prior": "concurrent"})),
+                        },
+                    }
+                }
+                let strays: Vec<String> = std::fs::read_dir(dir).map(|d| d.filter_map(|e| e.ok()).map(|e| e.file_name().to_string_lossy().into_owned()).filter(|n| n.contains(&format!("c14-{}-map_", std::process::id())) && !paths.iter().any(|p| p.file_name().map(|f| f.to_string_lossy() == n.as_str()).unwrap_or(false))).collect()).unwrap_or_default();
+                if !strays.is_empty() {
+                    c.violate("write-to-file-left-other-files".to_string(), format!("after the writes the directory holds files nobody asked for: {strays:?}"), json!({}));
+                    for sname in strays {
+                        let _ = std::fs::remove_file(dir.join(sname));
+                    }
+                }
+            }
+            for p in &paths {
+                let _ = std::fs::remove_file(p);
+            }
+        }
     }
     // ---- (c) walker on the first file
     let w0 = walk_file(&x0);
@@ -1835,6 +1881,34 @@ fn check_case(c: &mut Case, input: &Input) {
     // ---- (a) parse and compare with the builder input
     let Some(root0) = parse_root(c, &x0, &w0, ver, "build", "parse-failed") else { return };
     c.count(&format!("detected|{ver}->{}", vname(root0.version)), 1);
+    // ---- the same bytes through other ways a caller reads them: one reader used for the framing scan and then for the parse
+    // (the two-pass use the API documents), the same reader parsed twice, and a source that returns short reads
+    {
+        let base = content_of_root(&root0);
+        let same = |r: &RootAdt| {
+            let k = content_of_root(r);
+            k.top == base.top && k.mcnk == base.mcnk
+        };
+        let mut cur = Cursor::new(x0.clone());
+        let scan = trap(|| wow_adt::chunk_discovery::discover_chunks(&mut cur).map(|d| d.total_chunks));
+        let first = trap(|| parse_adt(&mut cur));
+        let second = trap(|| parse_adt(&mut cur));
+        let mut short = vh_common::ShortIo::new(Cursor::new(x0.clone()), 1 + (c.idx % 11) as usize * 5);
+        let third = trap(|| parse_adt(&mut short));
+        for (how, r) in [("after-discover_chunks-on-the-same-reader", first), ("second-parse-on-the-same-reader", second), ("short-reads", third)] {
+            c.count(&format!("reparsed|{how}"), 1);
+            match r {
+                Ok(Ok(ParsedAdt::Root(r))) if same(&r) => {}
+                Ok(Ok(ParsedAdt::Root(_))) => c.violate(format!("reparse-differs|{how}"), format!("parse_adt ({how}) yields other content than the parse from a fresh cursor"), json!({})),
+                Ok(Ok(o)) => c.violate(format!("reparse-differs|{how}|not-root"), format!("parse_adt ({how}) classifies the tile as {:?}", o.file_type()), json!({})),
+                Ok(Err(e)) => c.violate(format!("reparse-fails|{how}"), format!("parse_adt ({how}) fails on bytes that parse from a fresh cursor: {e}"), json!({})),
+                Err(p) => c.violate(format!("reparse-panic|{how}|{}", p.sig()), p.msg.clone(), json!({})),
+            }
+        }
+        if !matches!(scan, Ok(Ok(n)) if n > 0) {
+            c.violate("discover-chunks-fails-on-own-output".to_string(), "discover_chunks fails or finds nothing in a tile the library wrote".to_string(), json!({}));
+        }
+    }
     let want = content_of_input(input);
     let mut prev = content_of_root(&root0);
     for (field, wv) in &want.top {
